@@ -55,8 +55,8 @@ write("C15", "C15 — released space is reused: repeating a net-zero cycle does 
    ("witness_cycle_stable", "Examples.small_stream_cycle_stable", "the witness cycle create / write 100 / remove evaluated on the model: sizes 1536, 2560, 2560, 2560, 2560"),
   ])
 
-write("C02", "C02 — write-through persistence: the byte image always reopens to the same state.  Statements are printed by Check below and compared with C02.expected.  PARTIAL: proved are the write-through of the FAT, of the directory (insert / remove / metadata updates / new directory sectors) and of the MiniFAT cells (every cached cell or entry equals its bytes on disk after every mutation), that the on-disk FAT and directory read back as open does return the cache (the directory followed by the blank slots of its last sector), the entry / header codec round trips in both modes, and that strict acceptance gives the same state as permissive.  The composition persist (open (image s) = s up to free-list order, for every reachable s) is NOT proved; it is checked at every operation boundary of generated histories: the implementation's bytes, taken without flush, are reopened in both modes by the crate and by the model and all dumps compared.",
-  IMP_ALL + "\nFrom Cfb.proofs Require Import CoherenceProofs CodecProofs StrictProofs DirCoherence.",
+write("C02", "C02 — write-through persistence: the byte image always reopens to the same state.  Statements are printed by Check below and compared with C02.expected.  PARTIAL: proved are the write-through of the FAT, of the directory (insert / remove / metadata updates / new directory sectors) and of the MiniFAT cells (every cached cell or entry equals its bytes on disk after every mutation), that the on-disk FAT and directory read back as open does return the cache (the directory followed by the blank slots of its last sector), the entry / header codec round trips in both modes, and that strict acceptance gives the same state as permissive.  Also proved (proofs/ReopenProofs.v): the REOPEN ROUND TRIP - for every state that is Coherent (header bytes = header computed from the cache, FAT / directory / MiniFAT cache = disk, tails FREE, tables valid; no DIFAT sectors, i.e. at most 109 FAT sectors) open in BOTH modes on the concatenated image succeeds and returns exactly the cached tables (directory followed by the blank slots of its last sector, free lists rebuilt in index order); Coherent holds for the fresh file of either version and, by a sound boolean checker, for reachable example states (storages, mini and regular streams, removals, second FAT sector, second directory sector, extended MiniFAT); the header field writes of allocation keep the header coherent.  NOT proved: that Coherent is preserved by every API operation (its layers are: FAT, directory, MiniFAT write-through above), and the DIFAT-sector regime; both are checked at every operation boundary of generated histories: the implementation's bytes, taken without flush, are reopened in both modes by the crate and by the model and all dumps compared.",
+  IMP_ALL + "\nFrom Cfb.proofs Require Import CoherenceProofs CodecProofs StrictProofs DirCoherence ReopenProofs.",
   [("set_fat_writes_through", "set_fat_existing_coherent", "every FAT cell update is on disk when the call returns"),
    ("allocation_reuse_keeps_coherence", "allocate_reuse_preserves", "allocation from the free list keeps cache = disk"),
    ("allocation_growth_keeps_coherence", "allocate_grow_coherent", "growth (new FAT / DIFAT sectors) keeps cache = disk and the DIFAT consistent"),
@@ -70,6 +70,14 @@ write("C02", "C02 — write-through persistence: the byte image always reopens t
    ("dirent_roundtrip", "dirent_roundtrip", "every valid directory entry decodes to itself in both modes"),
    ("header_roundtrip", "header_roundtrip", "every valid header decodes to itself in both modes"),
    ("strict_and_permissive_agree", "strict_implies_permissive", "both validation modes build the identical state"),
+   ("reopen_round_trip", "reopen_both_modes", "for EVERY coherent state: open (either mode) of the bytes alone = the cached state (blank directory slots appended, free lists in index order)"),
+   ("reopen_returns_the_cached_tables", "reopen_same_tables", "the same, field by field"),
+   ("coherence_is_decidable_soundly", "coherent_b_sound", "a boolean checker implies Coherent (used to establish it for concrete reachable states by evaluation)"),
+   ("fresh_file_is_coherent", "Examples.create_state_coherent", "the file written by create, V3 and V4"),
+   ("reachable_states_are_coherent", "Examples.more_coherent", "non-vacuity: states after removals, with an extended MiniFAT, a second FAT sector, a second directory sector"),
+   ("fresh_header_is_coherent", "create_state_header_coherent", "header bytes of a fresh file = header computed from the cache"),
+   ("allocation_keeps_the_header_coherent", "allocate_sector_header", "reuse and growth (with or without a new FAT sector listed in the header DIFAT) leave header bytes = header of the cache"),
+   ("new_fat_sector_updates_the_header", "append_fat_sector_header", "appending a FAT sector writes the DIFAT slot and the FAT-sector count through"),
   ])
 
 write("C04", "C04 — any valid layout written by another implementation is read correctly.  Statements are printed by Check below and compared with C04.expected.  PARTIAL: the layout-independence components are theorems — a chain is read as the concatenation of its sectors in chain order WHATEVER the sector numbers (fragmented, reversed, anywhere in the file), lookup finds exactly the keys of ANY search tree over the CFB order (balanced red-black or degenerate, any slots), listing is the in-order sequence, the order is shortlex on upper-cased UTF-16 units.  The composition open_any_layout (Represents b t -> abs (open b) = t) is not proved; it is checked on images written by an independent layout synthesiser.",
